@@ -77,6 +77,9 @@ func vupOps() []vupOp {
 		{"Wa", wr("aaaaaaaaaaaaaaaa")},
 		{"Wb", wr("bbbbbbbb")},
 		{"Vbad", func(u BlobCreator, st *vupState) string { return vupErr(u.Verify(digest.FromString("something else"))) }},
+		{"Vbad512", func(u BlobCreator, st *vupState) string {
+			return vupErr(u.Verify(digest.SHA512.FromString("something else")))
+		}},
 		{"Vgood", func(u BlobCreator, st *vupState) string { return vupErr(u.Verify(digest.FromBytes(st.written))) }},
 		{"V512", func(u BlobCreator, st *vupState) string { return vupErr(u.Verify(digest.SHA512.FromBytes(st.written))) }},
 		{"Close", closeOp},
